@@ -13,6 +13,8 @@ def to_smt2(ob, axioms):
     s = z3.Solver()
     for a in axioms:
         s.add(a)
+    for h in getattr(ob, 'facts', []):
+        s.add(h)
     for h in ob.hyps:
         s.add(h)
     s.add(z3.Not(ob.goal))
@@ -52,18 +54,82 @@ def _py(val):
     return str(val)
 
 
+def _cvc5_text(smt2):
+    # seq.nth_i / seq.nth_u are z3-internal names for the in-range / out-of-range cases of seq.nth;
+    # (_ f 0) is z3's way of printing applications of recursive definitions
+    t = smt2.replace('seq.nth_i', 'seq.nth').replace('seq.nth_u', 'seq.nth')
+    t = re.sub(r'\(_ ([A-Za-z_][A-Za-z0-9_!]*) 0\)', r'\1', t)
+    return '(set-logic ALL)\n' + t
+
+
 def _work(job):
-    name, smt2, timeout_ms, wanted, seed = job
+    """z3 (in process) raced against cvc5 (subprocess) on the same VC; first definitive verdict wins.
+    `sat` is only taken from z3 (its model is needed); cvc5 contributes `unsat`."""
+    name, smt2, timeout_ms, wanted, seed, use_cvc5 = job
     t0 = time.time()
+    proc = None
+    path = None
+    if use_cvc5:
+        try:
+            with tempfile.NamedTemporaryFile('w', suffix='.smt2', delete=False) as f:
+                f.write(_cvc5_text(smt2))
+                path = f.name
+            proc = subprocess.Popen(['/usr/bin/cvc5', '--lang=smt2', '--strings-exp', f'--tlimit={timeout_ms}', path],
+                                    stdout=subprocess.PIPE, stderr=subprocess.PIPE, text=True)
+        except Exception:
+            proc = None
+    res = _z3(name, smt2, timeout_ms, wanted, seed, proc)
+    res['time'] = round(time.time() - t0, 3)
+    if proc is not None:
+        if res['status'] == 'unknown':
+            try:
+                out, err = proc.communicate(timeout=max(1, timeout_ms / 1000 - (time.time() - t0) + 2))
+                verdict = (out.strip().splitlines() or [''])[0].strip()
+                if verdict == 'unsat':
+                    res = {'name': name, 'backend': 'cvc5', 'status': 'discharged', 'time': round(time.time() - t0, 3),
+                           'z3': res.get('reason', '')}
+                else:
+                    res['cvc5'] = (verdict or err)[:120]
+            except subprocess.TimeoutExpired:
+                res['cvc5'] = 'timeout'
+        try:
+            proc.kill()
+            proc.communicate(timeout=2)
+        except Exception:
+            pass
+    if path:
+        try:
+            os.unlink(path)
+        except OSError:
+            pass
+    return res
+
+
+def _z3(name, smt2, timeout_ms, wanted, seed, proc):
     try:
         ctx = z3.Context()
         s = z3.Solver(ctx=ctx)
-        s.set('timeout', timeout_ms)
+        # poll cvc5 in slices so that a quick cvc5 `unsat` ends a slow z3 search early
+        slice_ms = 1500 if proc is not None else timeout_ms
         if seed:
             s.set('random_seed', seed % 1000)
         s.from_string(smt2)
-        r = s.check()
-        res = {'name': name, 'backend': 'z3', 'time': round(time.time() - t0, 3)}
+        spent = 0
+        r = z3.unknown
+        while spent < timeout_ms:
+            s.set('timeout', min(slice_ms, timeout_ms - spent))
+            t1 = time.time()
+            r = s.check()
+            spent += int((time.time() - t1) * 1000) + 1
+            if r != z3.unknown:
+                break
+            reason = s.reason_unknown()
+            if 'timeout' not in reason and 'canceled' not in reason:
+                break
+            if proc is not None and proc.poll() is not None:
+                break
+            slice_ms = min(slice_ms * 2, 8000)
+        res = {'name': name, 'backend': 'z3'}
         if r == z3.unsat:
             res['status'] = 'discharged'
         elif r == z3.sat:
@@ -80,41 +146,7 @@ def _work(job):
             res['reason'] = s.reason_unknown()
         return res
     except Exception as ex:      # solver crash: undecided, never a violation
-        return {'name': name, 'backend': 'z3', 'status': 'unknown', 'reason': f'exception {ex!r}'[:300],
-                'time': round(time.time() - t0, 3)}
-
-
-def _cvc5(job):
-    name, smt2, timeout_ms, wanted, seed = job
-    t0 = time.time()
-    text = '(set-logic ALL)\n' + smt2
-    with tempfile.NamedTemporaryFile('w', suffix='.smt2', delete=False) as f:
-        f.write(text)
-        path = f.name
-    try:
-        p = subprocess.run(['/usr/bin/cvc5', '--lang=smt2', '--strings-exp', f'--tlimit={timeout_ms}', path],
-                           capture_output=True, text=True, timeout=timeout_ms / 1000 + 5)
-        out = p.stdout.strip().splitlines()
-        verdict = out[0].strip() if out else ''
-        res = {'name': name, 'backend': 'cvc5', 'time': round(time.time() - t0, 3)}
-        if verdict == 'unsat':
-            res['status'] = 'discharged'
-        elif verdict == 'sat':
-            # cvc5 found a model but we do not translate it; treat as failed-without-model
-            res['status'] = 'failed'
-            res['model'] = {}
-        else:
-            res['status'] = 'unknown'
-            res['reason'] = (p.stderr or p.stdout)[:200]
-        return res
-    except Exception as ex:
-        return {'name': name, 'backend': 'cvc5', 'status': 'unknown', 'reason': repr(ex)[:200],
-                'time': round(time.time() - t0, 3)}
-    finally:
-        try:
-            os.unlink(path)
-        except OSError:
-            pass
+        return {'name': name, 'backend': 'z3', 'status': 'unknown', 'reason': f'exception {ex!r}'[:300]}
 
 
 def discharge(obligations, axioms, timeout_ms=10000, procs=None, seed=0, use_cvc5=True):
@@ -131,23 +163,14 @@ def discharge(obligations, axioms, timeout_ms=10000, procs=None, seed=0, use_cvc
                 wanted.add(t.decl().name())
             except Exception:
                 pass
-        jobs.append((i, (ob.name, to_smt2(ob, axioms), timeout_ms, wanted, seed)))
+        jobs.append((i, (ob.name, to_smt2(ob, axioms), timeout_ms, wanted, seed, use_cvc5)))
     results = dict(trivial)
     if jobs:
         procs = procs or min(16, max(1, os.cpu_count() or 1))
+        if use_cvc5:
+            procs = max(1, procs // 2)
         with mp.get_context('fork').Pool(min(procs, len(jobs))) as pool:
             outs = pool.map(_work, [j for _, j in jobs], chunksize=1)
         for (i, job), r in zip(jobs, outs):
             results[i] = r
-        if use_cvc5:
-            unk = [(i, job) for (i, job) in jobs if results[i]['status'] == 'unknown']
-            if unk:
-                with mp.get_context('fork').Pool(min(procs, len(unk))) as pool:
-                    outs = pool.map(_cvc5, [j for _, j in unk], chunksize=1)
-                for (i, job), r in zip(unk, outs):
-                    if r['status'] == 'discharged':
-                        r['z3'] = results[i].get('reason', 'unknown')
-                        results[i] = r
-                    else:
-                        results[i]['cvc5'] = r.get('status') + ':' + r.get('reason', '')[:80]
     return [results[i] for i in range(len(obligations))]
